@@ -98,8 +98,13 @@ def sample_module(ids):
     return f'---- MODULE RoutingSample ----\nSampleMeshIds == {{{body}}}\n====\n'
 
 
-def mc_cfg(emit=False, **kw):
-    """cfg text of MC_Routing with the given constants; emit=True: generation run (only the Emit 'invariant')"""
+SANITY = ('SubsequenceFormsAgree', 'DeviationsAreRejected', 'PairDeviationsAreRejected')
+
+
+def mc_cfg(emit=False, sanity=True, **kw):
+    """cfg text of MC_Routing with the given constants; emit=True: generation run (only the Emit 'invariant');
+    sanity=False: only the clauses of the properties and JudgeAcceptsModel (the model-level sanity invariants of the
+    judgement are checked exhaustively on 3 sites and on the sampled 4-site meshes)"""
     vals = dict(NSites=4, UseSample='FALSE', OneSrcDst='TRUE', Thin=1, LinePer=6, TwinPer=1, PairPer=8, TriplePer=2,
                 OverlapPer=2, GroupsExhaustive='FALSE', Doubling='FALSE', Salt=0)
     for k, v in kw.items():
@@ -113,7 +118,7 @@ def mc_cfg(emit=False, **kw):
         key = s.split('=')[0].strip() if '=' in s and '<-' not in s else None
         if key in vals:
             out.append(f'  {key} = {vals[key]}')
-        elif s.startswith('INVARIANT') and emit:
+        elif s.startswith('INVARIANT') and (emit or (not sanity and s.split()[-1] in SANITY)):
             continue
         else:
             out.append(ln)
